@@ -17,7 +17,7 @@ META = {
                  'Australian sign convention and rotations in arc-seconds; every element of the propagated covariance against '
                  'J Q J^T with J obtained by exact differentiation of that formula and Q the diagonal of the squared uncertainties in '
                  'the same units; array shapes of every store into the Jacobian / weight matrix; the branch structure (covariance only '
-                 'when supplied and when the set carries uncertainties); slot-by-slot negation of a parameter set',
+                 'when supplied and when the set carries uncertainties); slot-by-slot negation of a parameter set; zero input covariance still yields the parameter contribution; statelessness with memo-key analysis; negation independent of the python type of a parameter',
     'explanation': 'Static: conform7 (numpy literal code) is abstractly evaluated over symbolic 3x1 / 3x3 / 10x10 matrices into exact '
                    'normal forms; the reference Jacobian is derived by exact differentiation. Decides the formula, its sign/unit '
                    'conventions, first-order covariance propagation and array-shape soundness for every point and parameter set with '
